@@ -390,7 +390,7 @@ impl G {
       Ty::C(n, _) if n == "List" => prods.extend([(4, "listbuild"), (5, "listop")]),
       Ty::C(n, _) if n == "Option" => prods.extend([(3, "ctor"), (3, "optop")]),
       Ty::C(..) => prods.extend([(8, "ctor")]),
-      Ty::F(..) => prods.extend([(8, "lambda"), (4, "fnref")]),
+      Ty::F(..) => prods.extend([(8, "lambda"), (if clos { 10 } else { 5 }, "fnref")]),
       Ty::V(_) => prods.extend([(6, "vecbuild")]),
       Ty::Unit => prods.extend([(4, "print")]),
       Ty::T(_) => {}
@@ -426,7 +426,9 @@ impl G {
         let b = self.gen_int(cx, d - 1, w);
         let ops = ["<", "<=", ">", ">=", "==", "!="];
         let o = *self.rng.pick(&ops);
-        Some(opx(format!("{} {o} {}", par(&a), par(&b)), ANY))
+        // `x.f < e` would be parsed as the start of a type-argument list
+        let left = if o == "<" && a.k == K::Atom && a.s.contains('.') && !a.s.starts_with('(') { format!("({})", a.s) } else { par(&a) };
+        Some(opx(format!("{left} {o} {}", par(&b)), ANY))
       }
       "logic" => {
         let a = self.gen_bool(cx, d - 1);
@@ -815,7 +817,24 @@ impl G {
     // group alternatives into or-patterns
     let mut groups: Vec<Vec<Pat>> = vec![];
     for p in pats {
-      if !groups.is_empty() && groups.len() >= 1 && self.rng.chance(1, 4) {
+      let mut hs = vec![];
+      p.holes(&mut hs);
+      let sig: Vec<Ty> = hs.iter().map(|h| h.0.clone()).collect();
+      // alternatives with the same (non-empty) binding signature can share bindings
+      let same: Vec<usize> = groups
+        .iter()
+        .enumerate()
+        .filter(|(_, g)| {
+          let mut h2 = vec![];
+          g[0].holes(&mut h2);
+          !sig.is_empty() && h2.iter().map(|h| h.0.clone()).collect::<Vec<_>>() == sig
+        })
+        .map(|(i, _)| i)
+        .collect();
+      if !same.is_empty() && self.rng.chance(1, 2) {
+        let gi = same[self.rng.below(same.len())];
+        groups[gi].push(p);
+      } else if !groups.is_empty() && self.rng.chance(1, 6) {
         let gi = self.rng.below(groups.len());
         groups[gi].push(p);
       } else {
@@ -1108,9 +1127,20 @@ impl G {
           Some(atom(format!("{}.{}", s.cls, s.name), ANY))
         }
         Some(rt) => {
-          let recv = self.p_var(rt, cx, self.dflt(rt))?;
+          // a reference to a method of a generic class whose type mentions T crashes the compiler (region genmethodref)
+          if matches!(rt, Ty::C(_, a) if !a.is_empty()) && !self.allowed("genmethodref") {
+            return None;
+          }
+          let recv = match self.p_var(rt, cx, self.dflt(rt)) {
+            Some(v) => v.s,
+            None => {
+              let rcx = self.recv_cx(cx);
+              let e = self.gen(rt, &rcx, 1, self.dflt(rt));
+              format!("({})", e.s)
+            }
+          };
           self.feat("method-reference");
-          Some(atom(format!("{}.{}", recv.s, s.name), ANY))
+          Some(atom(format!("{recv}.{}", s.name), ANY))
         }
       };
     }
